@@ -57,7 +57,7 @@ pub fn run(rec: &mut Recorder, thorough: bool, seed: u64) -> Result<serde_json::
         rec.emit(json!({"ev":"SealCall","be":"v1","ver":1,"purpose":"public","key":skid,"claims":cid,"footer":0,"aad":0}));
         spy_take();
         unsafe { (sh.arm)(fail_at) };
-        let r = catch_unwind(AssertUnwindSafe(|| UnsealedToken::<paseto_v1::core::V1, Public, SpyClaims>::new(SpyClaims(claims.clone())).with_footer(SpyFooter(vec![])).seal(&sk, &[])));
+        let r = catch_unwind(AssertUnwindSafe(|| UnsealedToken::<paseto_v1::core::V1, Public, SpyClaims>::new(SpyClaimsS::<false>(claims.clone())).with_footer(SpyFooter(vec![])).seal(&sk, &[])));
         let made = unsafe { (sh.count)() };
         unsafe { (sh.disarm)() };
         for e in spy_take() {
